@@ -268,9 +268,10 @@ section GenConc
 open HC.ConcProg
 
 /-- `stepActs` (the actions of a model step) is a faithful reading of `stepThr`: EXECUTING the actions (copy = prefix of the shared
-    vector, ext = `extend`, store = publish the local array) on the cache the thread sees and its local array yields the cache and the
-    local array `stepThr` yields, and fails exactly when `stepThr` panics.  `hC`: in the compute phase the local array is what was copied
-    in the read phase. -/
+    vector, MUL a b c = the polynomial at word offset `c` := that at `a` times that at `b`, store = publish the local array) on the cache
+    the thread sees and its local array yields the cache and the local array `stepThr` yields, and fails exactly when `stepThr` panics -
+    in particular the MULs the code's index arithmetic produces ARE the model's `extend`.  `hC`: in the compute phase the local array is
+    what was copied in the read phase. -/
 theorem gen_step_actions_sound (d : Nat) (hd : 0 < d) (rc : Bool) (cache : List P) (t : Thr P)
     (hpc : t.pc = .R ∨ t.pc = .C ∨ t.pc = .W) (hC : t.pc = .C → t.newArr.length = t.oldR) :
     execActs A d (stepActs d rc A cache t) (cache, t.newArr) =
@@ -281,13 +282,19 @@ theorem gen_step_actions_sound (d : Nat) (hd : 0 < d) (rc : Bool) (cache : List 
 /-- `Decryptor::compute_secret_key_array` IS the model's R, C, W steps (with the re-check): for every requested power, every `n`, `k`
     (degree, key primes), every cache `cR` seen under the read lock and every cache `cW` seen under the write lock (whatever the other
     threads did in between).  Hypotheses: `n·k > 0`; the new array fits a `usize` (else `vec![0; …]`'s size computation panics);
-    `cR` non-empty (the constructor stores `s^1`, `cache_inv` keeps `n ≥ 1`; on an EMPTY cache the model panics in `extendOnce` and the
-    code in `old_size + i - 1` - inside the elided loop body, so the generated program cannot show it). -/
+    `cR` non-empty (the constructor stores `s^1`, `cache_inv` keeps `n ≥ 1`); the EMPTY cache is `gen_compute_empty_cache_panics`. -/
 theorem gen_dec_compute_secret_key_array_eq (want n k : Nat) (cR cW : List P) (hd : 0 < n * k) (hnk : n * k < B64)
     (hA : max cR.length want * n * k < B64) (h1 : 1 ≤ cR.length) :
     GenConc.dec_compute_secret_key_array want n k (cR.length * (n * k)) (cW.length * (n * k)) =
       .ok (encode (callActs (n * k) true A want cR cW)) :=
   gq_dec_compute_eq A want n k cR cW hd hnk hA h1
+
+/-- the excluded point of the two equalities: on an EMPTY cache (request > 0) the generated program traps in `old_size + i - 1` of the
+    first loop iteration, and the model panics in its compute step (`extendOnce []`): they agree there too -/
+theorem gen_compute_empty_cache_panics (want n k M : Nat) (hw : 0 < want) (hd : 0 < n * k) (hnk : n * k < B64) (hA : want * n * k < B64) :
+    GenConc.dec_compute_secret_key_array want n k 0 (M * (n * k)) = .error .overflow ∧
+    (stepThr true A [] (stepThr true A [] ({ want := want } : Thr P)).2).2.pc = .panicked :=
+  ⟨gq_dec_compute_empty want n k M hw hd hnk hA, gq_model_empty_panics A want hw⟩
 
 /-- the same for `KeyGenerator::compute_secret_key_array` (proved separately: a change to ONE of the two copies breaks that one) -/
 theorem gen_kg_compute_secret_key_array_eq (want n k : Nat) (cR cW : List P) (hd : 0 < n * k) (hnk : n * k < B64)
@@ -310,12 +317,13 @@ theorem gen_compute_in_run (n0 : Nat) (h0 : 1 ≤ n0) (wants sched sched' : List
   exact ⟨gq_dec_compute_eq A want n k cR cW hd hnk hA h1, gq_callActs_lockWF _ A want cR cW h1⟩
 
 /-- the model's call in closed form: early return iff enough powers are cached; otherwise allocate, copy ALL cached powers, release,
-    extend to `max(cached, want)`, take the write lock, and publish UNLESS the cache seen there already has `want` powers -/
+    one MUL per missing power (`muls`: entry `L+i` := entry `L+i−1` · entry 0, holding NO lock), take the write lock, and publish UNLESS the
+    cache seen there already has `want` powers -/
 theorem gen_call_closed_form (d want : Nat) (cR cW : List P) (h1 : 1 ≤ cR.length) :
     callActs d true A want cR cW =
       if cR.length = max cR.length want then [.acqR, .relR]
-      else [.acqR, .alloc (max cR.length want * d), .copy (cR.length * d), .relR,
-            .ext cR.length (max cR.length want - cR.length), .acqW] ++
+      else [.acqR, .alloc (max cR.length want * d), .copy (cR.length * d), .relR] ++
+        muls d cR.length (max cR.length want - cR.length) ++ [.acqW] ++
         (if cW.length = max cW.length want then [.relW] else [.store (max cR.length want * d), .relW]) :=
   gq_callActs d A want cR cW h1
 
@@ -375,13 +383,16 @@ theorem gen_apply_ntt_eq (len : T → Nat) (hpos : ∀ x, 0 < len x) (ix cc : Na
 /-- witnesses (non-vacuity; N = 4, 2 primes, 8 words per power).  The racy situation of `norecheck_shrinks`: a thread that wants 2
     powers read a 1-power cache, another thread published 3 powers before it takes the write lock: the generated program KEEPS the cache
     (no STORE = code 13) ... -/
-example : GenConc.dec_compute_secret_key_array 2 4 2 (1 * 8) (3 * 8) = .ok [1, 10, 16, 11, 8, 2, 12, 1, 1, 3, 4] := rfl
+example : GenConc.dec_compute_secret_key_array 2 4 2 (1 * 8) (3 * 8) = .ok [1, 10, 16, 11, 8, 2, 12, 0, 8, 0, 8, 8, 8, 3, 4] := rfl
 /-- ... as the model with the re-check does, while the model WITHOUT the re-check publishes (the cache shrinks) -/
-example : encode (callActs 8 true natAlg 2 [2] [2, 4, 8]) = [1, 10, 16, 11, 8, 2, 12, 1, 1, 3, 4] ∧
-    encode (callActs 8 false natAlg 2 [2] [2, 4, 8]) = [1, 10, 16, 11, 8, 2, 12, 1, 1, 3, 13, 16, 4] := by decide
-/-- nothing changed in between: the thread publishes; enough powers cached: early return -/
-example : GenConc.kg_compute_secret_key_array 3 4 2 (1 * 8) (1 * 8) = .ok [1, 10, 24, 11, 8, 2, 12, 1, 2, 3, 13, 24, 4] ∧
-    GenConc.kg_compute_secret_key_array 2 4 2 (3 * 8) (3 * 8) = .ok [1, 2] := ⟨rfl, rfl⟩
+example : encode (callActs 8 true natAlg 2 [2] [2, 4, 8]) = [1, 10, 16, 11, 8, 2, 12, 0, 8, 0, 8, 8, 8, 3, 4] ∧
+    encode (callActs 8 false natAlg 2 [2] [2, 4, 8]) = [1, 10, 16, 11, 8, 2, 12, 0, 8, 0, 8, 8, 8, 3, 13, 16, 4] := by decide
+/-- nothing changed in between: two MULs (s^2 = s^1·s^1 at word 8, s^3 = s^2·s^1 at word 16), the thread publishes; enough powers cached: early
+    return; an empty cache: trap -/
+example : GenConc.kg_compute_secret_key_array 3 4 2 (1 * 8) (1 * 8) =
+      .ok [1, 10, 24, 11, 8, 2, 12, 0, 8, 0, 8, 8, 8, 12, 8, 8, 0, 8, 16, 8, 3, 13, 24, 4] ∧
+    GenConc.kg_compute_secret_key_array 2 4 2 (3 * 8) (3 * 8) = .ok [1, 2] ∧
+    GenConc.kg_compute_secret_key_array 2 4 2 0 0 = .error .overflow := ⟨rfl, rfl, rfl⟩
 /-- a size-4 ciphertext at a level with 1 of the 2 key primes: powers 0, 1, 2 at stride 8, 4 words each; a 2-power snapshot is refused -/
 example : GenConc.dec_dot_product_ct_sk_array 4 4 1 2 true (3 * 8) = .ok [14, 3, 1, 15, 0, 4, 15, 8, 12, 15, 16, 20, 2] ∧
     GenConc.dec_dot_product_ct_sk_array 4 4 1 2 true (2 * 8) = .error .refused ∧
